@@ -178,5 +178,8 @@ def run(c, a):
         "rule": "distinct TLC-simulated delivery schedules among 2-3 instances and 1-2 shards (claims, releases, duplicated / "
                 "delayed announcements, state pushes, leaves), each completed to quiescence; plus the complete routing decision table",
     })
+    # the intra-proxy peer streams behind "handed to the known remote owner" (module IntraProxy: real managers over real gRPC)
+    import p_intraproxy
+    c.coverage["intraproxy"] = p_intraproxy.run_extra(c)
     samples = [{"schedule": scheds[0], "quiet": [e for e in runs[0] if e["ev"] == "Quiet"]}, {"route_case": cases[0]}]
     return c.finish(samples, traces_validated=len(runs) - len(nviol_runs))
